@@ -90,6 +90,9 @@ var vobFilled int // how many sibling fields the last build filled
 // blob goes through the repair path before it is translated.
 var vobTail, vobDirty bool
 
+// vobDirty2: the blob holds invalid UTF-8 in a string that is NOT a failure message (an identity): the repair cannot fix it
+var vobDirty2 bool
+
 // vobJSON: event blobs on the path are JSON-encoded (ENCODING_TYPE_JSON, which Temporal's serializer decodes as well as proto3)
 var vobJSON bool
 
@@ -207,6 +210,11 @@ func vobBuild(m protoreflect.Message, path []string, leafKind, value string) err
 				Attributes: &historypb.HistoryEvent_WorkflowTaskFailedEventAttributes{WorkflowTaskFailedEventAttributes: &historypb.WorkflowTaskFailedEventAttributes{
 					Failure: &failurepb.Failure{Message: vobDirtyMark}}}})
 		}
+		if vobDirty2 {
+			evs = append(evs, &historypb.HistoryEvent{EventId: 98, EventType: enums.EVENT_TYPE_WORKFLOW_TASK_STARTED,
+				Attributes: &historypb.HistoryEvent_WorkflowTaskStartedEventAttributes{WorkflowTaskStartedEventAttributes: &historypb.WorkflowTaskStartedEventAttributes{
+					Identity: vobDirtyMark}}})
+		}
 		blob, err := serializer.SerializeEvents(evs)
 		if err != nil {
 			return err
@@ -218,7 +226,7 @@ func vobBuild(m protoreflect.Message, path []string, leafKind, value string) err
 			}
 			blob = &commonpb.DataBlob{EncodingType: enums.ENCODING_TYPE_JSON, Data: data}
 		}
-		if vobDirty {
+		if vobDirty || vobDirty2 {
 			blob.Data = bytes.ReplaceAll(blob.Data, []byte("@#@#"), []byte{0xff, 0xfe, 0xff, 0xfe})
 		}
 		if fd.IsList() {
@@ -645,8 +653,9 @@ func TestVerifSchemaObligations(t *testing.T) {
 				}()
 			}
 			vobTail, vobDirty, vobJSON = ob.Variant == "tail", false, ob.Variant == "json"
+			vobDirty2 = ob.Variant == "dirty2"
 			_ = enc.Encode(vobRunACL(aclTr, acl, ob))
-			vobTail, vobJSON = false, false
+			vobTail, vobJSON, vobDirty2 = false, false, false
 			continue
 		}
 		useIC := ic
